@@ -318,7 +318,7 @@ func TestEngine(t *testing.T) {
 	runScript(tr, []string{"case facts", "begin", "fact api", "fact amtool", "fact dispatcher"})
 	r := hx.Rand(7)
 	g := rtx.GenOpts{MaxDepth: 4, MaxFan: 4, MaxNodes: 14, Names: rtx.LabelNames, Timers: true}
-	for id := range hx.Cases(2500, 40000) {
+	for id := range hx.Cases(6000, 60000) {
 		root := rtx.GenTree(r, g)
 		n := 4 + r.IntN(5)
 		lsets := make([]model.LabelSet, n)
